@@ -1218,7 +1218,13 @@ func (e *Entry) ApplyDeviate(deviateOpts ...DeviateOpt) []error {
 	var errs []error
 	appendErr := func(err error) { errs = append(errs, err) }
 	for _, d := range e.Deviations {
-		deviatedNode := e.findSchemaNode(d.DeviatedPath)
+		// The argument of a deviation is an absolute schema node identifier
+		// (RFC 7950 7.20.3); anything else names no node, and in particular
+		// not the node of the deviating module that a relative path leads to.
+		var deviatedNode *Entry
+		if strings.HasPrefix(d.DeviatedPath, "/") {
+			deviatedNode = e.findSchemaNode(d.DeviatedPath)
+		}
 		if deviatedNode == nil {
 			appendErr(fmt.Errorf("cannot find target node to deviate, %s", d.DeviatedPath))
 			continue
